@@ -131,7 +131,21 @@ inductive Choice
   | broker (w : Nat) (v : Verdict)          -- the broker of `w` processes the set at the bridge
   | deliver (w : Nat) (still : Bool)        -- the answer reaches the run loop of `w`
   | moveLeader (b : Nat)                    -- leadership of the partition moves to broker `b`
+  | closeW (w : Nat)                        -- the CURRENT worker `w`, holding nothing of the partition, is closed by the
+                                            -- connection error of a request that carries other partitions' messages
   deriving Repr
+
+def headSyn : List Tok → Bool
+  | t :: _ => decide (t.kind = .syn)
+  | [] => false
+
+/-- `closeW w` is enabled when `w` is the worker the partition producer is bound to, in normal mode, with its syn
+    consumed, and it holds nothing of the partition (nothing in the buffer, at the bridge, held, or answered) -/
+def canClose (s : Sys) (w : Nat) : Bool :=
+  decide (s.cur = some w) && !headSyn (s.wk w).inq && !(s.wk w).bp.closing && !(s.wk w).bp.cr 0 &&
+  (s.wk w).bp.sets.isEmpty && (s.wk w).bp.buffer.isEmpty && (s.wk w).bp.wait.isNone && (s.wk w).pend.isNone
+
+def closeBp (b : BrokerProd.St) : BrokerProd.St := { b with closing := true }
 
 def sysStep (M : Nat) (s : Sys) : Choice → Option Sys
   | .submit => some { s with next := s.next + 1, dq := s.dq ++ [mkTok (s.next : Int) 0 false] }
@@ -165,6 +179,15 @@ def sysStep (M : Nat) (s : Sys) : Choice → Option Sys
     | none => none
     | some (v, base) => bpRun M s w (s.wk w).inq none base (.resp v.toResp still)
   | .moveLeader b => some { s with ldr := b }
+  | .closeW w =>
+    if canClose s w then some { s with wk := setW s.wk w ⟨(s.wk w).inq, closeBp (s.wk w).bp, none⟩ } else none
+
+theorem closeW_spec {M : Nat} {s s' : Sys} {w : Nat} (h : sysStep M s (.closeW w) = some s') :
+    canClose s w = true ∧ s' = { s with wk := setW s.wk w ⟨(s.wk w).inq, closeBp (s.wk w).bp, none⟩ } := by
+  simp only [sysStep] at h
+  split at h
+  · rename_i hg; simp only [Option.some.injEq] at h; exact ⟨hg, h.symm⟩
+  · cases h
 
 /-- run a choice sequence; `none` as soon as a choice is not enabled -/
 def run (M : Nat) (s : Sys) : List Choice → Option Sys
